@@ -32,46 +32,77 @@
 typedef struct S_struct___mpz_struct MPZ;
 typedef struct S_struct___mpq_struct MPQ;
 #define GM_NL 2
-#define GM_LIM (((i128)1) << 126)
+#define GM_BITS 126
+#define GM_LIM (((i128)1) << GM_BITS)
 #define GM_RANGE(c, what) __CPROVER_assert(c, "gmp model range: " what)
 
 static uint64_t gm_nondet_u64(void){ uint64_t v; return v; }   /* an uninitialised local is an arbitrary value */
 static uint32_t gm_nondet_u32(void){ uint32_t v; return v; }
 
-/* ---- reading and writing values */
+/* ---- reading and writing values.
+ * Default (heap) representation: as real GMP, see above.
+ * -DGM_FLAT: the same sign + magnitude value WITHOUT a heap array, for composite functions (loops, long call chains) whose
+ * proofs do not finish with a malloc/free per temporary (measured): _mp_size is as in GMP (sign * number of significant
+ * 64-bit limbs), limb 0 is stored in the bits of the _mp_d field itself (never dereferenced), the low 32 bits of limb 1 in
+ * _mp_alloc; range |value| < 2^94.  lib/bignums.cpp only ever touches _mp_size (mpz_sgn) and copies / swaps whole structs
+ * outside the dropped hash(), so both representations are faithful to what the wrapper can observe; ownership (deep copy,
+ * move, destructor) is checked with the heap representation only. */
+#ifdef GM_FLAT
+#undef GM_BITS
+#define GM_BITS 94
+#define GM_D0(p) ((uint64_t)(p)->f2)
+#define GM_D1(p) ((uint64_t)(p)->f0)
+#else
+#define GM_D0(p) ((p)->f2[0])
+#define GM_D1(p) ((p)->f2[1])
+#endif
 static i128 gm_get(const MPZ *p){
   int32_t s = (int32_t)p->f1;
   GM_RANGE(s >= -GM_NL && s <= GM_NL, "operand has at most 2 limbs");
   __CPROVER_assume(s >= -GM_NL && s <= GM_NL);
   uint32_t n = s < 0 ? (uint32_t)-s : (uint32_t)s;
-  /* both limbs of the (2-limb) array are read, only the n significant ones are used */
-  uint64_t d0 = p->f2[0], d1 = p->f2[1];
+  /* both limbs are read, only the n significant ones are used */
+  uint64_t d0 = GM_D0(p), d1 = GM_D1(p);
   u128 m = n == 0 ? (u128)0 : (n == 1 ? (u128)d0 : (((u128)d1 << 64) | d0));
   __CPROVER_assert(n == 0 || (n == 1 ? d0 : d1) != 0, "gmp: operand is normalised (most significant limb is not zero)");
-  GM_RANGE(m < (u128)GM_LIM, "operand magnitude below 2^126");
+  GM_RANGE(m < (u128)GM_LIM, "operand magnitude inside the model range");
   __CPROVER_assume(m < (u128)GM_LIM);
   return s < 0 ? -(i128)m : (i128)m;
 }
 static void gm_put(MPZ *p, i128 v){
-  GM_RANGE(v > -GM_LIM && v < GM_LIM, "result magnitude below 2^126");
+  GM_RANGE(v > -GM_LIM && v < GM_LIM, "result magnitude inside the model range");
   __CPROVER_assume(v > -GM_LIM && v < GM_LIM);
-  __CPROVER_assert((int32_t)p->f0 >= GM_NL, "gmp: destination was initialised (limb array allocated)");
   u128 m = v < 0 ? (u128)(-v) : (u128)v;
   uint64_t lo = (uint64_t)m, hi = (uint64_t)(m >> 64);
   int32_t n = hi ? 2 : (lo ? 1 : 0);
+#ifdef GM_FLAT
+  p->f2 = (uint64_t *)(n >= 1 ? lo : gm_nondet_u64());
+  p->f0 = n >= 2 ? (uint32_t)hi : gm_nondet_u32();
+#else
+  __CPROVER_assert((int32_t)p->f0 >= GM_NL, "gmp: destination was initialised (limb array allocated)");
   p->f2[0] = n >= 1 ? lo : gm_nondet_u64();
   p->f2[1] = n >= 2 ? hi : gm_nondet_u64();
+#endif
   p->f1 = (uint32_t)(v < 0 ? -n : n);
 }
 static void gm_alloc(MPZ *p){
+#ifdef GM_FLAT
+  p->f0 = gm_nondet_u32(); p->f1 = 0; p->f2 = (uint64_t *)gm_nondet_u64();
+#else
   uint64_t *d = (uint64_t *)malloc(GM_NL * sizeof(uint64_t));
   __CPROVER_assume(d != 0);
   p->f0 = GM_NL; p->f1 = 0; p->f2 = d;
+#endif
+}
+static void gm_free(MPZ *p){
+#ifndef GM_FLAT
+  free(p->f2);
+#endif
 }
 
 /* ---- initialisation, assignment, destruction */
 void __gmpz_init(MPZ *x){ gm_alloc(x); }
-void __gmpz_clear(MPZ *x){ free(x->f2); }
+void __gmpz_clear(MPZ *x){ gm_free(x); }
 void __gmpz_init_set(MPZ *r, MPZ *a){ i128 v = gm_get(a); gm_alloc(r); gm_put(r, v); }
 void __gmpz_init_set_si(MPZ *r, uint64_t n){ gm_alloc(r); gm_put(r, (i128)(int64_t)n); }
 void __gmpz_set(MPZ *r, MPZ *a){ gm_put(r, gm_get(a)); }
@@ -147,10 +178,10 @@ void __gmpz_tdiv_r(MPZ *r, MPZ *a, MPZ *b){
 void __gmpz_mul_2exp(MPZ *r, MPZ *a, uint64_t k){
   i128 x = gm_get(a);
   if (x == 0) { gm_put(r, 0); return; }
-  GM_RANGE(k < 126, "left shift amount below 126");
-  __CPROVER_assume(k < 126);
+  GM_RANGE(k < GM_BITS, "left shift amount inside the model range");
+  __CPROVER_assume(k < GM_BITS);
   u128 m = x < 0 ? (u128)(-x) : (u128)x;
-  GM_RANGE(m < ((u128)GM_LIM >> k), "result magnitude below 2^126");
+  GM_RANGE(m < ((u128)GM_LIM >> k), "result magnitude inside the model range");
   __CPROVER_assume(m < ((u128)GM_LIM >> k));
   m <<= k;
   gm_put(r, x < 0 ? -(i128)m : (i128)m); }
@@ -206,7 +237,7 @@ void __gmpz_import(MPZ *r, uint64_t count, uint32_t order, uint64_t size, uint32
     if ((int32_t)endian == 1) { w0 = gm_bswap(w0); w1 = gm_bswap(w1); }
     m = (int32_t)order == 1 ? (((u128)w0 << 64) | w1) : (((u128)w1 << 64) | w0);
   }
-  GM_RANGE(m < (u128)GM_LIM, "result magnitude below 2^126");
+  GM_RANGE(m < (u128)GM_LIM, "result magnitude inside the model range");
   __CPROVER_assume(m < (u128)GM_LIM);
   gm_put(r, (i128)m); }
 /* mpz_export (rop, countp, order, size, endian, nails, op): writes |op| as words; the number of words produced is
@@ -241,7 +272,7 @@ bool GM_coprime(i128 n, i128 d){
   if (d == 1 || d == -1 || n == 1 || n == -1) return 1;
   if (n == 0 || d == 0) return 0;                       /* gcd(0, d) = |d| != 1, gcd(n, 0) = |n| != 1 */
   if (n == d || n == -d) return 0;
-  return __CPROVER_uninterpreted_gm_coprime(n, d); }
+  return __CPROVER_uninterpreted_gm_coprime(n < 0 ? -n : n, d < 0 ? -d : d); }   /* gcd ignores signs */
 bool GM_canon(i128 n, i128 d){ return d > 0 && GM_coprime(n, d); }
 /* canonical representative (numerator, denominator) of n/d, d != 0 */
 i128 __CPROVER_uninterpreted_gm_cann(i128, i128);
@@ -297,9 +328,10 @@ static void gm_canon_check(i128 n, i128 d){
   __CPROVER_assert(GM_canon(n, d), "gmp: rational operand is in canonical form (positive denominator, no common factor)");
   __CPROVER_assume(GM_canon(n, d)); }
 void __gmpq_init(MPQ *q){ gm_alloc(QN(q)); gm_put(QN(q), 0); gm_alloc(QD(q)); gm_put(QD(q), 1); }
-void __gmpq_clear(MPQ *q){ free(QN(q)->f2); free(QD(q)->f2); }
-/* plain copies of numerator and denominator */
-void __gmpq_set(MPQ *r, MPQ *a){ i128 n = gm_get(QN(a)), d = gm_get(QD(a)); gm_put(QN(r), n); gm_put(QD(r), d); }
+void __gmpq_clear(MPQ *q){ gm_free(QN(q)); gm_free(QD(q)); }
+/* copy; the operand is assumed canonical like every mpq operand (real GMP reads the denominator's _mp_size as a limb
+ * count here: a negative denominator crashes it) */
+void __gmpq_set(MPQ *r, MPQ *a){ i128 n = gm_get(QN(a)), d = gm_get(QD(a)); gm_canon_check(n, d); gm_put(QN(r), n); gm_put(QD(r), d); }
 void __gmpq_set_z(MPQ *r, MPZ *a){ i128 n = gm_get(a); gm_put(QN(r), n); gm_put(QD(r), 1); }
 /* mpq_set_d: "Set rop to the value of op.  There is no rounding, this conversion is exact."  Modelled for the only
  * double the verified functions pass (0.0 in `*this < 0`) and for small integral values. */
@@ -320,7 +352,7 @@ static void gm_qop(int op, MPQ *r, MPQ *a, MPQ *b){
   GM_RANGE(gm_abs(an) < GM_QLIM && ad < GM_QLIM && gm_abs(bn) < GM_QLIM && bd < GM_QLIM, "rational operands (numerator, denominator) below 2^31");
   __CPROVER_assume(gm_abs(an) < GM_QLIM && ad < GM_QLIM && gm_abs(bn) < GM_QLIM && bd < GM_QLIM);
   i128 rn = GM_qopn(op, an, ad, bn, bd), rd = GM_qopd(op, an, ad, bn, bd);
-  __CPROVER_assume(gm_abs(rn) < GM_QRES && rd < GM_QRES);
+  __CPROVER_assume(rn > -GM_QRES && rn < GM_QRES && rd < GM_QRES);
   gm_put(QN(r), rn); gm_put(QD(r), rd); }
 void __gmpq_add(MPQ *r, MPQ *a, MPQ *b){ gm_qop(0, r, a, b); }
 void __gmpq_sub(MPQ *r, MPQ *a, MPQ *b){ gm_qop(1, r, a, b); }
@@ -333,7 +365,6 @@ uint32_t __gmpq_cmp(MPQ *a, MPQ *b){
   gm_canon_check(an, ad); gm_canon_check(bn, bd);
   if (bn == 0) return gm_sign_result(an, 0);
   if (an == 0) return gm_sign_result(0, bn);
-  if (ad == bd) return gm_sign_result(an, bn);
   return gm_sign_result(gm_mul(an, bd), gm_mul(bn, ad)); }
 /* r = a * 2^k, canonical: modelled for integers (den = 1) only */
 void __gmpq_mul_2exp(MPQ *r, MPQ *a, uint64_t k){
@@ -342,10 +373,10 @@ void __gmpq_mul_2exp(MPQ *r, MPQ *a, uint64_t k){
   __CPROVER_assume(d == 1 || n == 0);
   MPZ *rn = QN(r);
   if (n == 0) { gm_put(rn, 0); gm_put(QD(r), 1); return; }
-  GM_RANGE(k < 126, "left shift amount below 126");
-  __CPROVER_assume(k < 126);
+  GM_RANGE(k < GM_BITS, "left shift amount inside the model range");
+  __CPROVER_assume(k < GM_BITS);
   u128 m = n < 0 ? (u128)(-n) : (u128)n;
-  GM_RANGE(m < ((u128)GM_LIM >> k), "result magnitude below 2^126");
+  GM_RANGE(m < ((u128)GM_LIM >> k), "result magnitude inside the model range");
   __CPROVER_assume(m < ((u128)GM_LIM >> k));
   m <<= k;
   gm_put(rn, n < 0 ? -(i128)m : (i128)m); gm_put(QD(r), 1); }
